@@ -54,6 +54,7 @@ fn place(c: &mut Cursor) -> Place {
         indent: c.u8() % 9,
         doc: f & 128 != 0,
         container: if bits & 1 != 0 && bits & 2 != 0 { f % 5 } else { 0 },
+        glue: f & 64 != 0,
     }
 }
 
